@@ -131,6 +131,8 @@ func (d *db) doWriteLocked(u pb.Update, data []byte) error {
 
 // sync issues a fsync() operation on the underlying log file.
 func (d *db) sync() error {
+	d.mu.Lock()
+	defer d.mu.Unlock()
 	return d.mu.logFile.Sync()
 }
 
